@@ -42,6 +42,9 @@ pub struct RefInscriptions {
   pub by_sat: BTreeMap<u64, Vec<usize>>,
   pub envelopes_per_tx: HashMap<Txid, u32>,
   pub per_height: BTreeMap<u32, Vec<usize>>,
+  /// envelopes in blocks below this height are not inscriptions (ord starts
+  /// indexing inscriptions at the network's first inscription height)
+  pub first_height: u32,
 }
 
 impl RefInscriptions {
@@ -56,6 +59,9 @@ impl RefInscriptions {
   }
 
   pub fn apply_block(&mut self, height: u32, block: &Block, flows: &[TxFlow]) {
+    if height < self.first_height {
+      return;
+    }
     for (tx_index, tx) in block.txdata.iter().enumerate().skip(1) {
       let envelopes = ParsedEnvelope::from_transaction(tx);
       if envelopes.is_empty() {
